@@ -390,7 +390,9 @@ func runNewState(c *StateCase) (tr trace) {
 			// Blockchain.Store passes on), not a root recomputed under this block's version
 			stored := prev
 			err := apply(&stored)
-			if err != nil && isRootMismatch(err) {
+			if err != nil {
+				// (no matching on error texts: a rejection of the stored old root is an update that fails with
+				// the stored root and succeeds with the root recomputed under the new version, if that differs)
 				rd, e := state.NewStateReader(&prev, sdb)
 				if e != nil {
 					return e
@@ -475,7 +477,7 @@ func runOldState(c *StateCase) (tr trace) {
 			}
 			stored := prev
 			err := apply(&stored)
-			if err != nil && isRootMismatch(err) {
+			if err != nil {
 				txn := disk.NewIndexedBatch()
 				old, e := deprecatedstate.New(txn).Commitment(b.Version)
 				_ = txn.Close()
@@ -515,12 +517,6 @@ func runOldState(c *StateCase) (tr trace) {
 		}
 	}
 	return tr
-}
-
-// the error of the old-root / new-root verification of either backend
-func isRootMismatch(err error) bool {
-	m := err.Error()
-	return strings.Contains(m, "state commitment mismatch") || strings.Contains(m, "does not match the expected root")
 }
 
 func hasMigration(c *StateCase) bool {
@@ -602,8 +598,8 @@ func runChain(c *StateCase, newState bool) (tr trace) {
 
 // runStore applies the blocks through Blockchain.Store (the sync path): OldRoot = the root stored for the
 // previous block, NewRoot = roots[n] (the root the state layer computed for the same history), new root
-// verified by the node. Stops at the first rejected block; a rejection with the root-mismatch error is
-// recorded in OldRej (the caller knows whether the state layer rejected the stored old root there too).
+// verified by the node. Stops at the first rejected block, which is recorded in OldRej (the caller knows
+// whether the state layer rejected the stored old root there too).
 func runStore(c *StateCase, newState bool, roots []string) (tr trace) {
 	err, panicked, _ := lib.Try(func() error {
 		disk := memory.New()
@@ -628,12 +624,10 @@ func runStore(c *StateCase, newState bool, roots []string) (tr trace) {
 			su.BlockHash = &h
 			z := felt.Zero
 			if err := bc.Store(blk, &core.BlockCommitments{TransactionCommitment: &z, EventCommitment: &z, ReceiptCommitment: &z, StateDiffCommitment: &z}, su, classes); err != nil {
-				if isRootMismatch(err) {
-					tr.OldRej = append(tr.OldRej, n)
-					tr.OldRejErr = err.Error()
-					return nil
-				}
-				return fmt.Errorf("block %d: Store: %w", n, err)
+				// (judged by the caller: the same block may be rejected by the state layer for its stored old root)
+				tr.OldRej = append(tr.OldRej, n)
+				tr.OldRejErr = err.Error()
+				return nil
 			}
 			head, err := bc.HeadsHeader()
 			if err != nil {
@@ -1438,7 +1432,7 @@ func checkStateCases(f lib.Flags, res *lib.Result, drv *lib.Driver, cases []*Sta
 				// the same rejection as at the state layer (reported there)
 				res.Hit("state:Blockchain.Store-rejects-block-at-formula-switch")
 			case len(t.OldRej) > 0:
-				sig := "blockchain-store-rejects-roots-the-state-accepts-" + name + "-state"
+				sig := "blockchain-store-rejects-block-the-state-accepts-" + name + "-state"
 				violateOnce(res, sig, func() lib.Violation {
 					return lib.Violation{Sig: sig, What: fmt.Sprintf("block %d: Blockchain.Store: %s; the state's own Update accepts the same update with the same old and new root", t.OldRej[0], t.OldRejErr),
 						Replay: rep(func(c *StateCase) bool {
@@ -1835,7 +1829,7 @@ func checkInvalidDiffs(f lib.Flags, res *lib.Result, drv *lib.Driver, cases []*i
 			switch {
 			case strings.HasPrefix(t.Err, "panic"):
 				return false, t.Err
-			case strings.HasPrefix(t.Err, pre) && !strings.Contains(t.Err, "mismatch") && !strings.Contains(t.Err, "does not match"):
+			case strings.HasPrefix(t.Err, pre):
 				return true, ""
 			case t.Err == "":
 				return false, "accepted, root " + at(t.Roots, last)
